@@ -680,7 +680,29 @@ def judge_state(root, spec, entries, models, committed, inflight, post, fix=None
     # -- 6. (C) the other models can still be stored and are then retrievable
     for j in range(nm_models):
         if keys[j] in fl_keys:
-            hits["not_judged:re-store-of-the-interrupted-key"] += 1
+            # (D) a retry of the interrupted store may be refused (a pending transaction is a documented refusal), but
+            # when it returns the entry must be complete: a torn entry must never become visible through a retry
+            if j in skip_post:
+                continue
+            hits["D:retry_interrupted_store"] += 1
+            try:
+                ctx.store_model_entry(entries[j])
+            except Exception:  # noqa
+                hits["D:retry_refused"] += 1
+                continue
+            hits["D:retry_returned"] += 1
+            try:
+                me = ctx.retrieve_model_entry(spec["models"][j]["name"])
+                d = cmp_entry(me, entries[j], models[j], hits)
+                d = [x for x in d if not x.startswith("modelfit_results")] if any(i in ref.key_c for i in groups[keys[j]]) else d
+                if d:
+                    v("A", "retry", f"the retried store of the interrupted model {j} returned, but the entry is not faithful: "
+                      + "; ".join(d)[:400], model=j, diffs=d)
+            except KeyError:
+                hits["D:retry_entry_not_by_name"] += 1
+            except Exception as e:  # noqa
+                v("A", "retry", f"the retried store of the interrupted model {j} returned, but the entry cannot be retrieved: "
+                  f"{_exc(e)}: {str(e)[:150]}", model=j, exc=_exc(e))
             continue
         if j in skip_post:
             hits["not_judged:model-not-storable-without-fault"] += 1
